@@ -144,7 +144,26 @@ def viscosity_rules(ctx, rule):
     fv = ctx.P.func(q)
     ctx.touch(q)
     rho = nf.sym("@rho")
-    mu = only(run(ctx, q, args=dict(reduced_args()), stubs={GAS + "density_DAK": lambda bound: Num(rho)}), "viscosity_Sutton").value.nf
+    # the viscosity in terms of the library's density: Z is kept as one atom, density_DAK gives rho = Kd p gamma / (Z T_abs),
+    # and Z := Kd p gamma / (rho T_abs) is substituted (whether viscosity_Sutton calls density_DAK or a shared worker)
+    ZQ = GAS + "z_factor_DAK"
+    ra = dict(reduced_args())
+    mu0 = only(run(ctx, q, args=ra, opaque={ZQ}), "viscosity_Sutton").value.nf
+    d0 = only(run(ctx, GAS + "density_DAK", args=ra, opaque={ZQ}), "density_DAK").value.nf
+    zat = sorted({a for a in nf.atoms(mu0) if a[0] == "fn" and a[1] == ZQ}, key=repr)
+    zad = sorted({a for a in nf.atoms(d0) if a[0] == "fn" and a[1] == ZQ}, key=repr)
+    if len(zat) != 1 or zat != zad:
+        raise AnalysisError(f"{q}: viscosity and density do not share one z-factor atom")
+    # rho == d0 with Z as the unknown: d0 * Z is free of Z
+    dz = nf.mul(d0, nf.atom_poly(zat[0]))
+    if any(a == zat[0] for a in nf.atoms(dz)):
+        raise AnalysisError(f"{q}: density_DAK is not proportional to 1/Z")
+    z_of_rho = nf.div(dz, rho)
+    mu = nf.subst(mu0, lambda a: z_of_rho if a == zat[0] else None)
+    for sname in ("pr",):
+        if nf.depends(mu, sname) and not nf.is_zero(nf.diff(mu, sname)):
+            raise AnalysisError(f"{q}: viscosity depends on pressure besides the density")
+    mu = nf.subst_sym(mu, {"pr": nf.ONE}) if nf.depends(mu, "pr") else mu
     missing = sorted(nf.symbols(mu) - set(VISC_BOX))
     if missing:
         raise AnalysisError(f"{q}: no declared range for {missing}")
